@@ -64,11 +64,13 @@ def encode(body, sizes, nl, upper, rng):
         if not c:
             break
         hx = ("%X" if upper else "%x") % len(c)
+        # chunk-size = 1*HEXDIG: any number of leading zeros is the same size
+        hx = rng.choice(["", "", "", "0", "000"]) + hx
         out += hx.encode() + nl + c + nl
     if i < len(body):
         c = body[i:]
         out += (("%x" % len(c)).encode()) + nl + c + nl
-    return out + b"0" + nl + nl
+    return out + rng.choice([b"0", b"0", b"00", b"0000"]) + nl + nl
 
 
 class BufLen(AssertionError):
@@ -288,8 +290,8 @@ def chunked(rng, body, nl=b"\r\n"):
         n = rng.randint(1, 5)
         c = body[i:i + n]
         i += n
-        out += (rng.choice(["%x", "%X"]) % len(c)).encode() + nl + c + nl
-    return out + b"0" + nl + nl
+        out += (rng.choice(["%x", "%X", "%03x", "0%X"]) % len(c)).encode() + nl + c + nl
+    return out + rng.choice([b"0", b"0", b"00", b"000"]) + nl + nl
 
 
 def parse_response(out):
